@@ -182,8 +182,42 @@ def order_items(items):
     return [(n, d_items[n]) for n in out], name_of
 
 
-def print_items(items):
+REDUCTIONS = {'sum', 'amax', 'amin', 'fmin'}
+
+
+def add_aux_items(items, modname):
+    """every non-atomic argument of `D` or of a reduction gets its own definition `aux_k` (array-level lemmas about
+    generated definitions - equivariance, linearity - need such arguments to be named terms)"""
+    named = {e.uid for _, e in items}
+    aux, seen = [], set()
+    for _, root in list(items):
+        for n in walk(root):
+            arg = None
+            if n.op == 'D':
+                arg = n.args[1]
+            elif n.op == 'call' and n.args[0] in REDUCTIONS:
+                arg = n.args[1]
+            if arg is None or not isinstance(arg, E):
+                continue
+            if arg.op in ('sym', 'num') or arg.uid in named or arg.uid in seen:
+                continue
+            # an argument that mentions the operator argument `x` of an `_apply` definition cannot be a closed definition
+            if any(m.op == 'sym' and m.args[0] == ARG for m in walk(arg)):
+                continue
+            seen.add(arg.uid)
+            aux.append(arg)
+    aux.sort(key=lambda e: e.uid)
+    out = list(items)
+    for k, e in enumerate(aux):
+        nm = 'aux_%d' % k
+        out.append((nm, e))
+        LOCAL_NAMES.add((modname, nm))
+    return out
+
+
+def print_items(items, modname=''):
     """-> list of dicts {name, body, syms, uses_arg, refs}"""
+    items = add_aux_items(items, modname)
     ordered, name_of = order_items(items)
     out = []
     for n, e in ordered:
